@@ -22,6 +22,7 @@
 From Coq Require Import PrimFloat.
 From mathcomp Require Import all_ssreflect all_algebra.
 From Verif Require Import MExp MExpMx MxBox Scaler ScalerMx ScalerP.
+From Verif Require Import ScalerExtP ScalerObj ScalerObjMx ScalerObjP.
 Set Implicit Arguments.
 Unset Strict Implicit.
 Unset Printing Implicit Defensive.
@@ -185,6 +186,207 @@ Theorem C11_scale_bounded_below :
 Proof. exact sc_scale_bounded. Qed.
 Print Assumptions C11_scale_bounded_below.
 
+(* ======================= extension (round 3) ============================================ *)
+
+(* the complete functional form of transform on ANY data, for every flag combination and any
+   (given or absent) sample weights: (y - [weighted mean]) / [sqrt of the weighted column
+   variance | sqrt of their sum | 1].  C11_textbook is the instance all flags on, unweighted. *)
+Theorem C11_transform_formula :
+  forall (F : rcfType) (cfg : sc_cfg) (n d : nat) (rtol atol : F)
+         (X : 'M[F]_(n, d)) (w : 'cV[F]_n),
+    sc_wok cfg w ->
+    forall (st : 'rV[F]_d * 'rV[F]_d) (k : nat) (Y : 'M[F]_(k, d)) (i : 'I_k) (j : 'I_d),
+    sc_fit_mx cfg rtol atol X w = Some st ->
+    let ew := sc_effw cfg w in
+    (sc_transform_mx st Y) i j
+    = (Y i j - (if with_mean cfg then (wmean ew X) ord0 j else 0))
+      / (if with_std cfg then
+           if column_wise cfg then Num.sqrt ((wvar ew X) ord0 j)
+           else Num.sqrt (\sum_l (wvar ew X) ord0 l)
+         else 1).
+Proof. exact sc_transform_formula. Qed.
+Print Assumptions C11_transform_formula.
+
+(* weights incl. zeros: rows of weight zero do not influence the fit at all — two data sets
+   that agree on every row of non-zero weight have the same fit outcome (mean_, scale_ or
+   rejection); real weights, not only integer multiplicities *)
+Theorem C11_zero_weight_rows_ignored :
+  forall (F : rcfType) (cfg : sc_cfg) (n d : nat) (rtol atol : F)
+         (X : 'M[F]_(n, d)) (w : 'cV[F]_n),
+    sc_wok cfg w ->
+    forall X' : 'M[F]_(n, d),
+    has_w cfg -> (forall i, w i ord0 != 0 -> forall j, X i j = X' i j) ->
+    sc_fit_mx cfg rtol atol X w = sc_fit_mx cfg rtol atol X' w.
+Proof. exact sc_zero_weight_rows. Qed.
+Print Assumptions C11_zero_weight_rows_ignored.
+
+(* only the ratios of the sample weights matter ("weights are internally normalized") *)
+Theorem C11_weight_scale_invariant :
+  forall (F : rcfType) (cfg : sc_cfg) (n d : nat) (rtol atol : F)
+         (X : 'M[F]_(n, d)) (w : 'cV[F]_n),
+    sc_wok cfg w ->
+    forall a : F, has_w cfg -> a != 0 ->
+    sc_fit_mx cfg rtol atol X (a *: w) = sc_fit_mx cfg rtol atol X w.
+Proof. exact sc_weight_scale. Qed.
+Print Assumptions C11_weight_scale_invariant.
+
+(* C11_rescale_sign assumes that the rescaled data is accepted too.  For |a| >= 1 that is
+   automatic (all modes, all tolerances) ... *)
+Theorem C11_rescale_accepted :
+  forall (F : rcfType) (cfg : sc_cfg) (n d : nat) (rtol atol : F)
+         (X : 'M[F]_(n, d)) (w : 'cV[F]_n),
+    sc_wok cfg w ->
+    forall (st : 'rV[F]_d * 'rV[F]_d) (a : F),
+    sc_fit_mx cfg rtol atol X w = Some st -> 1 <= `|a| -> 0 <= atol -> 0 <= rtol ->
+    isSome (sc_fit_mx cfg rtol atol (a *: X) w).
+Proof. exact sc_rescale_accepted. Qed.
+Print Assumptions C11_rescale_accepted.
+
+(* ... and for |a| < 1 it can fail: the accepted 2 x 1 data (0, 2) with atol = 1/2 is
+   rejected after multiplication by 1/2 (variance 1/4).  The guard is absolute in atol. *)
+Theorem C11_rescale_down_can_be_rejected :
+  forall F : rcfType,
+    let X : 'M[F]_(2, 1) := \matrix_(i, j) (i : nat)%:R *+ 2 in
+    let cfg := ScCfg true true true false in
+    isSome (sc_fit_mx cfg 0 (2%:R^-1) X 0)
+    /\ sc_fit_mx cfg 0 (2%:R^-1) (2%:R^-1 *: X) 0 = None.
+Proof. exact sc_rescale_down_rejected. Qed.
+Print Assumptions C11_rescale_down_can_be_rejected.
+
+(* a prior shift with centring OFF is not absorbed: the output moves by c / scale_ *)
+Theorem C11_shift_without_centring :
+  forall (F : rcfType) (cfg : sc_cfg) (n d : nat) (rtol atol : F)
+         (X : 'M[F]_(n, d)) (w : 'cV[F]_n),
+    sc_wok cfg w ->
+    forall (st st' : 'rV[F]_d * 'rV[F]_d) (c : 'rV[F]_d),
+    ~~ with_mean cfg ->
+    sc_fit_mx cfg rtol atol X w = Some st ->
+    sc_fit_mx cfg rtol atol (X + rows_of n c) w = Some st' ->
+    forall (k : nat) (Y : 'M[F]_(k, d)) (i : 'I_k) (j : 'I_d),
+      (sc_transform_mx st' (Y + rows_of k c)) i j
+      = (sc_transform_mx st Y) i j + c ord0 j / st.2 ord0 j.
+Proof. exact sc_shift_nocenter. Qed.
+Print Assumptions C11_shift_without_centring.
+
+(* standardised data is standardised: with centring and scaling on and atol <= 1, fitting
+   again on transform(X) (same flags, same weights) is accepted with mean_ = 0 and
+   scale_ = 1, so standardising twice is standardising once, on any data *)
+Theorem C11_idempotent :
+  forall (F : rcfType) (cfg : sc_cfg) (n d : nat) (rtol atol : F)
+         (X : 'M[F]_(n, d)) (w : 'cV[F]_n) (st : 'rV[F]_d * 'rV[F]_d),
+    sc_wok cfg w -> sc_fit_mx cfg rtol atol X w = Some st ->
+    with_mean cfg -> with_std cfg -> 0 < atol -> atol <= 1 -> 0 <= rtol ->
+    exists st2, sc_fit_mx cfg rtol atol (sc_transform_mx st X) w = Some st2
+      /\ forall (k : nat) (Y : 'M[F]_(k, d)),
+           sc_transform_mx st2 (sc_transform_mx st Y) = sc_transform_mx st Y.
+Proof. exact sc_idempotent_ex. Qed.
+Print Assumptions C11_idempotent.
+
+(* ---- the estimator OBJECT over arbitrary call sequences (Model/ScalerObjMx.v; its binary64
+   twin Model/ScalerObj.v is run against the Python object call by call) -------------------
+   State: constructor parameters + (None | n_samples_in_, n_features_in_, `scale_ is an
+   array`, mean_, scale_).  Calls: set_params, fit (any shape, with/without weights),
+   transform / inverse_transform (any width).  A fit rejected by the zero-variance guard
+   leaves the object fitted with the new mean_ and scale_ = 1.0 — as the code does. *)
+
+(* INVARIANT (induction over the call sequence): from a fresh estimator, after ANY sequence
+   of calls in which every atol in force is >= a0 > 0, every rtol >= 0 and given weights
+   have non-zero sum, a stored scale_ is positive and either exactly 1 or scale_^2 >= a0.
+   So no transform of any reachable object divides by a scale below min(1, sqrt a0) — also
+   not after rejected refits or parameter changes between fits. *)
+Theorem C11_obj_scale_invariant :
+  forall (F : rcfType) (a0 : F), 0 < a0 ->
+  forall (p0 : so_par F) (ops : seq (so_op F)) (f : so_fitted F),
+    par_ok a0 p0 -> all (op_ok a0) ops ->
+    o_fit (so_run (SoObj p0 None) ops).1 = Some f ->
+    forall j, 0 < (f_st f).2 ord0 j
+              /\ ((f_st f).2 ord0 j = 1 \/ a0 <= (f_st f).2 ord0 j ^+ 2).
+Proof. exact so_reachable_scale. Qed.
+Print Assumptions C11_obj_scale_invariant.
+
+(* hence in every reachable fitted state transform and inverse_transform (on data of the
+   fitted width) return matrices and undo each other, in both orders *)
+Theorem C11_obj_roundtrip :
+  forall (F : rcfType) (a0 : F), 0 < a0 ->
+  forall (p0 : so_par F) (ops : seq (so_op F)) (f : so_fitted F),
+    par_ok a0 p0 -> all (op_ok a0) ops ->
+    let o := (so_run (SoObj p0 None) ops).1 in
+    o_fit o = Some f ->
+    forall (k : nat) (Y : 'M[F]_(k, f_d f)),
+      let T := sc_transform_mx (f_st f) Y in
+      [/\ so_step o (OpTransform Y) = (o, OutMat (box T)),
+          so_step o (OpInverse T) = (o, OutMat (box Y))
+        & so_step o (OpTransform (sc_inverse_mx (f_st f) Y)) = (o, OutMat (box Y))].
+Proof. exact so_reachable_roundtrip. Qed.
+Print Assumptions C11_obj_roundtrip.
+
+(* transform / inverse_transform never change the object; both raise NotFittedError exactly
+   when nothing is fitted, ValueError exactly when the width differs from n_features_in_,
+   and return a matrix otherwise *)
+Theorem C11_obj_transform_outcome :
+  forall (F : rcfType) (o : so_obj F) (k c : nat) (Y : 'M[F]_(k, c)),
+    (so_step o (OpTransform Y)).1 = o
+    /\ match (so_step o (OpTransform Y)).2, (so_step o (OpInverse Y)).2 with
+       | OutNotFitted, OutNotFitted => o_fit o = None
+       | OutValueError, OutValueError => exists2 f, o_fit o = Some f & c != f_d f
+       | OutMat _, OutMat _ => exists2 f, o_fit o = Some f & c = f_d f
+       | _, _ => False
+       end.
+Proof. exact so_transform_outcome. Qed.
+Print Assumptions C11_obj_transform_outcome.
+
+(* no stale state: a fit with >= 2 rows overwrites every fitted attribute; the resulting
+   object and outcome depend on the current parameters and the arguments only *)
+Theorem C11_obj_refit_fresh :
+  forall (F : rcfType) (o o' : so_obj F) (n d : nat) (X : 'M[F]_(n, d)) (hw : bool) (w : 'cV[F]_n),
+    o_par o = o_par o' -> (1 < n)%N ->
+    so_step o (OpFit X hw w) = so_step o' (OpFit X hw w)
+    /\ isSome (o_fit (so_step o (OpFit X hw w)).1).
+Proof. exact so_refit_fresh. Qed.
+Print Assumptions C11_obj_refit_fresh.
+
+(* a fit with fewer than 2 rows raises and touches nothing *)
+Theorem C11_obj_fit_small_untouched :
+  forall (F : rcfType) (o : so_obj F) (n d : nat) (X : 'M[F]_(n, d)) (hw : bool) (w : 'cV[F]_n),
+    (n < 2)%N -> so_step o (OpFit X hw w) = (o, OutValueError F).
+Proof. exact so_fit_small. Qed.
+Print Assumptions C11_obj_fit_small_untouched.
+
+(* what a fit rejected by the zero-variance guard leaves behind (quirk of the code, stated
+   as it is): the object is fitted, with the new n_samples_in_ / n_features_in_ / mean_ and
+   the scalar scale_ = 1 — the rejected variance is never divided by *)
+Theorem C11_obj_rejected_fit_state :
+  forall (F : rcfType) (o : so_obj F) (n d : nat) (X : 'M[F]_(n, d)) (hw : bool) (w : 'cV[F]_n),
+    (1 < n)%N ->
+    sc_fit_mx (so_cfg (o_par o) hw) (p_rtol (o_par o)) (p_atol (o_par o)) X w = None ->
+    exists f, [/\ so_step o (OpFit X hw w) = (SoObj (o_par o) (Some f), OutValueError F),
+                  f_n f = n, f_arr f = false
+                & exists e : f_d f = d,
+                    castmx (erefl, e) (f_st f).2 = const_mx 1
+                    /\ castmx (erefl, e) (f_st f).1
+                       = eval_mx (sc_env_fit_mx X w) (sc_mean (so_cfg (o_par o) hw) n d)].
+Proof. exact so_fit_rejected. Qed.
+Print Assumptions C11_obj_rejected_fit_state.
+
+(* non-vacuity of the object theorems: over every real closed field the trace
+   fit (0,2) [accepted]; fit (1,1) [rejected by the guard]; transform of width 2 [ValueError];
+   transform of width 1 [matrix] is admissible with a0 = 1/2 and ends fitted with a scalar
+   scale_ *)
+Example C11_obj_nonvacuous :
+  forall F : rcfType,
+    let p : so_par F := SoPar true true true 0 (2%:R^-1) in
+    let X : 'M[F]_(2, 1) := \matrix_(i, j) (i : nat)%:R *+ 2 in
+    let C : 'M[F]_(2, 1) := const_mx 1 in
+    let Y2 : 'M[F]_(1, 2) := 0 in
+    let ops := [:: OpFit X false 0; OpFit C false 0; OpTransform Y2; OpTransform C] in
+    par_ok (2%:R^-1) p /\ all (op_ok (2%:R^-1)) ops
+    /\ exists f B, [/\ (so_run (SoObj p None) [:: OpFit X false 0]).2 = [:: OutSelf F],
+                      o_fit (so_run (SoObj p None) ops).1 = Some f,
+                      (so_run (SoObj p None) ops).2
+                      = [:: OutSelf F; OutValueError F; OutValueError F; OutMat B]
+                    & f_arr f = false].
+Proof. exact so_nonvacuous. Qed.
+
 (* non-vacuity: over every real closed field the 2 x 1 data (0, 2), unweighted, all flags on,
    atol = 1/2, is accepted with mean_ = 1 and scale_ = 1 (so the hypotheses of the theorems
    above are satisfiable with a non-trivial centre and scale); and the binary64 run of the
@@ -201,4 +403,18 @@ Example C11_nonvacuous_float :
   sc_fit_f (ScCfg true true true false) 2 1 0%float 0.5%float
            (cons (cons 0%float nil) (cons (cons 2%float nil) nil)) nil
   = Some (cons (cons 1%float nil) nil, cons (cons 1%float nil) nil).
+Proof. vm_compute. reflexivity. Qed.
+
+Example C11_obj_nonvacuous_float :
+  let p := SofPar true true true 0%float 0.5%float in
+  let X := cons (cons 0%float nil) (cons (cons 2%float nil) nil) in
+  let C := cons (cons 1%float nil) (cons (cons 1%float nil) nil) in
+  List.map (fun x => snd (fst x))
+    (cons (sof_step (SofObj p None) (FTransform 2 1 C))
+    (cons (sof_step (SofObj p None) (FFit 2 1 X false nil))
+    (cons (sof_step (fst (fst (sof_step (SofObj p None) (FFit 2 1 X false nil)))) (FFit 2 1 C false nil))
+    (cons (sof_step (fst (fst (sof_step (SofObj p None) (FFit 2 1 X false nil)))) (FTransform 1 2 (cons (cons 0%float (cons 0%float nil)) nil)))
+    (cons (sof_step (fst (fst (sof_step (SofObj p None) (FFit 2 1 X false nil)))) (FTransform 2 1 X)) nil)))))
+  = cons FNotFitted (cons FSelf (cons FValueError (cons FValueError
+      (cons (FMat (cons (cons (-1)%float nil) (cons (cons 1%float nil) nil))) nil)))).
 Proof. vm_compute. reflexivity. Qed.
